@@ -465,7 +465,12 @@ class SimProcess:
         if not self.alive:
             return
         self.alive = False
-        reason = error.ProcessDone(0) if code == 0 else error.ProcessTerminated(code, None, code << 8)
+        if code == 0:
+            reason = error.ProcessDone(0)
+        elif code < 0:  # killed by signal -code: no exit code at all
+            reason = error.ProcessTerminated(None, -code, -code)
+        else:
+            reason = error.ProcessTerminated(code, None, code << 8)
         try:
             self.proto.processEnded(Failure(reason))
         except (Budget, HarnessError):
